@@ -189,3 +189,23 @@ PROPS['C03'] = dict(
           [dict(name='hamiltonian_m%d' % m, harness='h_hamiltonian', defs=['MODEL=%d' % m], witnesses=['done'], max_loop=20000,
                 validate=[{}]) for m in (0, 1, 2, 3)],
 )
+
+PROPS['C09'] = dict(
+    claim='DensityMatrix / DensityMatrixPart are executed symbolically on arbitrary symbolic eigenvalues (and eigenvector matrices of '
+          '2x2 blocks) of a real block structure; exp is an uninterpreted positive function, so the claims hold for every function with '
+          'E(x)>0, E(0)=1 - in particular: every exponent is <= 0 with one equal to 0 (no overflow, Z >= 1), weights are >= 0 and sum '
+          'to one, satisfy the Gibbs ratio law, and the averages are the traces of rho with the operators.',
+    bounds={Q: 'Hubbard atom (4 blocks of 1), spinless dimer (blocks 1,2,1 with symbolic 2x2 eigenvectors; one block of 4), every choice '
+               'of the ground state', T: 'additionally Hubbard dimer (16 states, 9 blocks)'},
+    assumptions=['double read as exact real; exp read as an uninterpreted function with E(x) > 0 and E(0) = 1',
+                 'eigen-data are arbitrary reals of the right shape (no orthonormality needed for these identities)'],
+    outside=['floating-point range effects beyond the sign of the exponents', 'EnsembleAverage of c+_i c_j (decided in the C10/C14 units)'],
+    units=[dict(name='dm_m0', harness='h_dm', defs=['MODEL=0'], split={'gs': R(4)}, resolve_selects=True, max_loop=20000,
+                witnesses=['computed', 'done', 'block_discarded'], validate=[{'gs': 3, 'E0_0': 2, 'E1_0': 1, 'E2_0': 3, 'E3_0': '1/2', 'eps': '1/10'}]),
+           dict(name='dm_m1_vec', harness='h_dm', defs=['MODEL=1', 'VEC=1'], split={'gs': R(4)}, resolve_selects=True, max_loop=20000,
+                witnesses=['computed', 'done', 'block_discarded'], validate=[{'gs': 0, 'E0_0': '-1', 'E1_0': 1, 'E1_1': 3, 'E2_0': '1/2', 'eps': '1/10'}]),
+           dict(name='dm_m2', harness='h_dm', defs=['MODEL=2'], split={'gs': R(4)}, resolve_selects=True, max_loop=20000,
+                witnesses=['computed', 'done']),
+           dict(name='dm_m3', harness='h_dm', defs=['MODEL=3', 'NOTRUNC'], split={'gs': R(16)}, resolve_selects=True, max_loop=20000, tiers=[T],
+                witnesses=['computed', 'done'])],
+)
